@@ -284,6 +284,15 @@ def classify(lines, idx, verdict):
                 if op[3] == op[1]: tags.append("aliased")
             if n == 0: tags.append("zero_dim")
             if n == 0 and "arg_EM" in tags: tags.append("zero_dim_arg_marked_empty")
+            # the receiver denotes the empty set (a reduced / converted reading since its last mutation says so) but is not marked empty
+            if "recv_EM" not in tags:
+                for l2 in reversed(lines[:opi]):
+                    u2 = l2.split()
+                    if u2[0] in ("res", "obs") and u2[1] == op[1] and u2[3] in ("mcons", "poly"):
+                        if u2[4] == "1" and u2[5] == "=" and u2[6] not in ("0",) and all(x == "0" for x in u2[7:]):
+                            tags.append("recv_empty_not_yet_detected")
+                        break
+                    if u2[0] in ("op", "new", "reset", "copy", "swap") and u2[1] == op[1]: break
             rr = rows_of_slot(lines, opi, op[1])
             if rr is not None:
                 if n >= 2 and any(r[0] != "=" and len(nonzero(r[2])) == 1 for r in rr): tags.append("recv_unary_inequality_dim_ge_2")
@@ -536,6 +545,7 @@ def run_shapes(ctx, mode, types, n_hist, length, maxdim, batch=10, nproc=14):
 
     stats = collections.Counter()
     opc, qc, statusc, precise = collections.Counter(), collections.Counter(), collections.Counter(), collections.Counter()
+    emptyops = collections.Counter()
     per_type = {}
     distinct, nontrivial, n_hists = set(), 0, 0
     samples = []
@@ -573,6 +583,15 @@ def run_shapes(ctx, mode, types, n_hist, length, maxdim, batch=10, nproc=14):
                     if v[0] == "info":
                         w = v[1].split()
                         if w and w[0] == "precise": precise[" ".join(w[2:]) + ":" + w[1]] += 1
+                        if w and w[0] == "emptyops":
+                            # operands of a binary predicate / operator that denote the empty set, by lazy state
+                            u = l.split()
+                            role = "operator" if u[0] == "op" else "predicate"
+                            for slot_, emp, who in ((u[1], w[1], "receiver"), (u[3], w[2], "argument")):
+                                emptyops[role + "_total"] += 1 if who == "receiver" else 0
+                                if emp == "1":
+                                    marked = "EM" in status_flags(lines, i, slot_)
+                                    emptyops["%s_%s_empty_%s" % (role, who, "marked" if marked else "not_yet_detected")] += 1
                         continue
                     stats[v[0]] += 1; tstat[v[0]] += 1
                     if v[0] == "skip":
@@ -597,6 +616,7 @@ def run_shapes(ctx, mode, types, n_hist, length, maxdim, batch=10, nproc=14):
         "observations_decided": stats["ok"], "observations_mismatch": stats["MISMATCH"],
         "observations_skipped": {k[5:]: v for k, v in stats.items() if k.startswith("skip:")},
         "notes": {k[5:]: v for k, v in stats.items() if k.startswith("note:")},
+        "empty_operands_of_binary_predicates_and_operators": dict(emptyops),
         "limit_histories": {k.split(":", 1)[1]: v for k, v in stats.items() if k.startswith("limit_histories:")},
         "limit_history_policy": "a quarter of the histories of every bounded T place bounds / denominators at and beyond the finite range of T; "
                                 "for floating-point T such a history applies only constructors from constraint systems, add_constraints, meet, join, "
